@@ -238,7 +238,7 @@ def _shard(arg):
 
 
 def run(ctx):
-    nshards = 16 if ctx.quick else 160
+    nshards = 12 if ctx.quick else 160
     ctx.pmap(_shard, [(ctx.seed, s, N_CLASSES) for s in range(nshards)])
     ctx.rule = ("Hypothesis-drawn dataclass IRs (1-5 fields of int/double/object/str/list; defaults, field(), default_factory, "
                 "init/repr/compare/hash/kw_only field options, KW_ONLY; decorator options flipped with p=0.05-0.35; a few "
